@@ -25,14 +25,23 @@ def install(it):
         G[name] = Builtin("spec." + name, fn, wants_ctx=ctx)
 
     # ---- declarations of symbolic inputs --------------------------------
-    def real(it_, ctx, name):
+    def _rng(ctx, v, lo, hi):
+        # optional range: an assumption here, the sampling range of the native witness search
+        if lo is not None:
+            ctx.assume(v >= lift(lo))
+        if hi is not None:
+            ctx.assume(v <= lift(hi))
+
+    def real(it_, ctx, name, lo=None, hi=None):
         v = z3.Real(name)
         ctx.inputs[name] = v
+        _rng(ctx, v, lo, hi)
         return v
 
-    def integer(it_, ctx, name):
+    def integer(it_, ctx, name, lo=None, hi=None):
         v = z3.Int(name)
         ctx.inputs[name] = v
+        _rng(ctx, v, lo, hi)
         return v
 
     def boolean(it_, ctx, name):
